@@ -388,6 +388,38 @@ def run(ctx):
                         det, page="directory listing differs from the one "
                         "of a fresh application with debug off",
                         listing=(lst.body or b"")[-300:].decode("latin-1")))
+        # a page first rendered for a request with debug on, then asked
+        # again with debug off (same application, same address): the second
+        # answer says nothing a debug-off page does not say
+        for n, first_on in enumerate(("attribute", "override")):
+            name = "hist%d" % n
+            os.makedirs(os.path.join(tmp, "root", name))
+            with open(os.path.join(tmp, "root", name, "f.txt"), "w") as fil:
+                fil.write("x")
+            app = new_app(document_root=os.path.join(tmp, "root"),
+                          document_index=True)
+            soft = "srvsoft-%s/9.9" % TOKEN
+            for method in ("GET", "HEAD", "GET"):
+                env_on = environ(method=method, path="/" + name)
+                env_off = environ(method=method, path="/" + name)
+                env_on["SERVER_SOFTWARE"] = env_off["SERVER_SOFTWARE"] = soft
+                if first_on == "attribute":
+                    app.debug = True
+                    env_off["poor_Debug"] = "Off"
+                else:
+                    app.debug = False
+                    env_on["poor_Debug"] = "On"
+                on = call(app, env_on)
+                off = call(app, env_off)
+                det = {"page": "directory listing", "debug_on_by": first_on,
+                       "method": method, "first": on.status,
+                       "second": off.status}
+                ctx.case(("on-then-off", first_on, method, n), True, det)
+                ctx.count("history")
+                body = off.body or b""
+                if soft.encode() in body or b"Poor WSGI for Python" in body:
+                    ctx.violation("override-outlives-its-request", dict(
+                        det, tail=body[-200:].decode("latin-1")))
     finally:
         os.environ.pop("poor_Debug", None)
         if saved_env is not None:
